@@ -71,7 +71,7 @@ def _records_rfile_rsp():
 
 
 def _mei_objects():
-    obj = st.tuples(st.one_of(st.integers(0, 6), st.integers(0x80, 0xFF)), hexbytes(0, 60, small=8))
+    obj = st.tuples(st.one_of(st.integers(0, 6), st.integers(0x80, 0xFF)), st.one_of(hexbytes(0, 60, small=8), hexbytes(0, 60, small=8), hexbytes(100, 240, small=240)))
 
     def fit(objs):
         out, total, seen = [], 0, set()
